@@ -210,6 +210,9 @@ def _get_ifm_to_fuse(sched_op, target_mem_area=None, target_mem_type_set=None):
             or tensor_should_be_ignored(ofm, target_mem_area, target_mem_type_set)
             # input tensor only allowed to have one consumer
             or len(ifm.consumer_list) > 1
+            # a write protected input (it has readers outside this subgraph, e.g. it is an output of the network) must
+            # keep its own memory: sharing it with the copy would let an elementwise consumer of the copy overwrite it
+            or ifm.ifm_write_protected
         ):
             # Currently DMA only used when bypassing memory only ops so ok to reuse ifm
             # if ifm has only one consumer
